@@ -91,7 +91,321 @@ theorem increaseAll_share (cs : List FeeDistCall) (s s' : FeeDist) (r : String) 
       simp [callsShare] at *
       omega
 
-/-! ### the route of one transaction: per-message distributions tallied in the fee gas meter -/
+/-! ### the keyed tallies of the fee gas meter (`map[key]sdk.Coins`, values added to)
+
+`tallyAdd` is `m[k] = m[k].Add(c...)`, `tallyGet` is `m[k]`. Coins are compared by meaning
+(`Coins.amountOf`, per denom). -/
+
+section Tally
+variable {κ : Type} [DecidableEq κ]
+
+/-- lookup law 1: after `m[k] = m[k].Add(c...)` the entry of `k` is what it was plus `c`
+(an absent key reads as the empty coins). -/
+theorem tallyGet_tallyAdd_same (t : Tally κ) (k : κ) (c : Coins) :
+    tallyGet (tallyAdd t k c) k = (tallyGet t k).add c := by
+  induction t with
+  | nil => simp [tallyAdd, tallyGet, Coins.add]
+  | cons hd rest ih =>
+    obtain ⟨k', c'⟩ := hd
+    by_cases hk : k' = k
+    · simp [tallyAdd, tallyGet, hk]
+    · simp [tallyAdd, tallyGet, hk, ih]
+
+/-- lookup law 2: every other key is untouched. -/
+theorem tallyGet_tallyAdd_other (t : Tally κ) (k r : κ) (c : Coins) (h : k ≠ r) :
+    tallyGet (tallyAdd t k c) r = tallyGet t r := by
+  induction t with
+  | nil => simp [tallyAdd, tallyGet, h]
+  | cons hd rest ih =>
+    obtain ⟨k', c'⟩ := hd
+    by_cases hk : k' = k
+    · subst hk; simp [tallyAdd, tallyGet, h]
+    · by_cases hr : k' = r
+      · subst hr; simp [tallyAdd, tallyGet, hk]
+      · simp [tallyAdd, tallyGet, hk, hr, ih]
+
+/-- the amount of denom `d` in the entries (or calls) whose key satisfies `P` -/
+def sumWhere (P : κ → Bool) (l : List (κ × Coins)) (d : Denom) : Int :=
+  ((l.filter fun kc => P kc.1).map fun kc => Coins.amountOf kc.2 d).sum
+
+theorem tallyAddAll_get (calls : List (κ × Coins)) (t : Tally κ) (r : κ) (d : Denom) :
+    Coins.amountOf (tallyGet (tallyAddAll t calls) r) d =
+      Coins.amountOf (tallyGet t r) d + sumWhere (fun k => decide (k = r)) calls d := by
+  induction calls generalizing t with
+  | nil => simp [tallyAddAll, sumWhere]
+  | cons kc rest ih =>
+    obtain ⟨k, c⟩ := kc
+    have h := ih (tallyAdd t k c)
+    simp only [tallyAddAll, List.foldl_cons] at h ⊢
+    rw [h]
+    by_cases hk : k = r
+    · subst hk; rw [tallyGet_tallyAdd_same]; simp [sumWhere]; omega
+    · rw [tallyGet_tallyAdd_other _ _ _ _ hk]; simp [sumWhere, hk]
+
+/-- [all call lists, all keys] THE statement about the keyed map: after any sequence of
+`m[k] = m[k].Add(c...)` statements on an empty map, the entry of `r` holds exactly the sum of the
+coins of the calls whose key is `r` — nothing is lost and nothing is counted twice, however the
+calls of different keys are interleaved. (Storing instead of adding falsifies it, see
+`tallyOverwrite_observation`.) -/
+theorem tally_total_eq_sum (calls : List (κ × Coins)) (r : κ) (d : Denom) :
+    Coins.amountOf (tallyGet (tallyAddAll [] calls) r) d =
+      ((calls.filter fun kc => kc.1 = r).map fun kc => Coins.amountOf kc.2 d).sum := by
+  have := tallyAddAll_get calls [] r d
+  simpa [tallyGet, sumWhere] using this
+
+omit [DecidableEq κ] in
+theorem sumWhere_perm (P : κ → Bool) {l₁ l₂ : List (κ × Coins)} (h : l₁.Perm l₂) (d : Denom) :
+    sumWhere P l₁ d = sumWhere P l₂ d := by
+  induction h with
+  | nil => rfl
+  | cons x _ ih =>
+    simp only [sumWhere] at ih
+    cases hp : P x.1 <;> simp [sumWhere, hp, ih]
+  | swap x y l =>
+    cases hp : P x.1 <;> cases hq : P y.1 <;> simp [sumWhere, hp, hq]
+    omega
+  | trans _ _ ih1 ih2 => rw [ih1, ih2]
+
+/-- the order of the adds (Go iterates `usedFees` in map order) does not matter for any entry. -/
+theorem tally_order_irrelevant (c₁ c₂ : List (κ × Coins)) (h : c₁.Perm c₂) (r : κ) (d : Denom) :
+    Coins.amountOf (tallyGet (tallyAddAll [] c₁) r) d = Coins.amountOf (tallyGet (tallyAddAll [] c₂) r) d := by
+  rw [tallyAddAll_get, tallyAddAll_get, sumWhere_perm _ h]
+
+/-- the keys of the map -/
+def tallyKeys (t : Tally κ) : List κ := t.map (·.1)
+
+theorem mem_tallyKeys_tallyAdd (t : Tally κ) (k x : κ) (c : Coins) :
+    x ∈ tallyKeys (tallyAdd t k c) ↔ x ∈ tallyKeys t ∨ x = k := by
+  induction t with
+  | nil => simp [tallyAdd, tallyKeys]
+  | cons hd rest ih =>
+    obtain ⟨k', c'⟩ := hd
+    simp only [tallyKeys] at ih
+    by_cases hk : k' = k
+    · subst hk; simp [tallyAdd, tallyKeys]
+      intro h; exact Or.inl h
+    · simp [tallyAdd, tallyKeys, hk, ih, or_assoc]
+
+/-- a map has every key once: `tallyAdd` keeps it so -/
+theorem tallyAdd_keys_nodup (t : Tally κ) (k : κ) (c : Coins) (h : (tallyKeys t).Nodup) :
+    (tallyKeys (tallyAdd t k c)).Nodup := by
+  induction t with
+  | nil => simp [tallyAdd, tallyKeys]
+  | cons hd rest ih =>
+    obtain ⟨k', c'⟩ := hd
+    have hn : k' ∉ tallyKeys rest ∧ (tallyKeys rest).Nodup := by
+      simpa [tallyKeys] using h
+    by_cases hk : k' = k
+    · simpa [tallyAdd, tallyKeys, hk] using h
+    · have hmem := mem_tallyKeys_tallyAdd rest k k' c
+      have : k' ∉ tallyKeys (tallyAdd rest k c) := by
+        rw [hmem]; rintro (h1 | h1); exact hn.1 h1; exact hk h1
+      have := ih hn.2
+      simp only [tallyAdd, hk, if_false, tallyKeys, List.map_cons, List.nodup_cons] at *
+      exact ⟨by assumption, by assumption⟩
+
+theorem tallyAddAll_keys_nodup (calls : List (κ × Coins)) (t : Tally κ) (h : (tallyKeys t).Nodup) :
+    (tallyKeys (tallyAddAll t calls)).Nodup := by
+  induction calls generalizing t with
+  | nil => simpa [tallyAddAll] using h
+  | cons kc rest ih =>
+    simp only [tallyAddAll, List.foldl_cons]
+    exact ih _ (tallyAdd_keys_nodup t kc.1 kc.2 h)
+
+/-- the total of a class of keys (e.g. "all composite keys of recipient `r`") is increased by
+exactly what is added under a key of the class. -/
+theorem sumWhere_tallyAdd (P : κ → Bool) (t : Tally κ) (k : κ) (c : Coins) (d : Denom) :
+    sumWhere P (tallyAdd t k c) d = sumWhere P t d + if P k then Coins.amountOf c d else 0 := by
+  induction t with
+  | nil => cases hp : P k <;> simp [tallyAdd, sumWhere, hp]
+  | cons hd rest ih =>
+    obtain ⟨k', c'⟩ := hd
+    simp only [sumWhere] at ih
+    by_cases hk : k' = k
+    · subst hk
+      cases hp : P k' <;> simp [tallyAdd, sumWhere, hp, Coins.add]
+      omega
+    · cases hp : P k' <;> cases hq : P k <;>
+        simp [tallyAdd, sumWhere, hk, hp] <;> simp [hq] at ih <;> omega
+
+omit [DecidableEq κ] in
+theorem sumWhere_map {ι : Type} (P : κ → Bool) (f : ι → κ) (l : List (ι × Coins)) (d : Denom) :
+    sumWhere P (l.map fun e => (f e.1, e.2)) d = sumWhere (fun i => P (f i)) l d := by
+  induction l with
+  | nil => simp [sumWhere]
+  | cons hd rest ih =>
+    simp only [sumWhere] at ih
+    cases hp : P (f hd.1) <;> simp [sumWhere, hp] <;> simpa using ih
+
+end Tally
+
+/-- (shape of seed C19-8) two message types name recipient `r1`, a third names `r2`; the map per
+recipient holds the sum for `r1`. -/
+example :
+    Coins.amountOf (tallyGet (feeConsumedDistributions
+      [(("send", "r1"), [("nhash", 600)]), (("send", ""), [("nhash", 200)]),
+       (("multi", "r2"), [("nhash", 7)]), (("multi", "r1"), [("nhash", 133)])]) "r1") "nhash" = 733 := by
+  decide
+
+/-- NOT part of the model: the seeded defect's "store a copy" instead of "add to the entry". -/
+def tallyOverwrite {κ : Type} [DecidableEq κ] : Tally κ → κ → Coins → Tally κ
+  | [], k, c => [(k, c)]
+  | (k', c') :: rest, k, c =>
+    if k' = k then (k', c) :: rest else (k', c') :: tallyOverwrite rest k c
+
+/-- negative witness: with `tallyOverwrite` in the place of `tallyAdd` the conclusion of
+`tally_total_eq_sum` is false on that input (the later share replaces the earlier one). -/
+example : let calls : List (String × Coins) :=
+      [("r1", [("nhash", 600)]), ("", [("nhash", 200)]), ("r2", [("nhash", 7)]), ("r1", [("nhash", 133)])]
+    Coins.amountOf (tallyGet (calls.foldl (fun t kc => tallyOverwrite t kc.1 kc.2) []) "r1") "nhash" = 133 ∧
+    ((calls.filter fun kc => kc.1 = "r1").map fun kc => Coins.amountOf kc.2 "nhash").sum = 733 := by
+  decide
+
+theorem tallyOverwrite_observation :
+    ¬ ∀ (calls : List (String × Coins)) (r : String) (d : Denom),
+      Coins.amountOf (tallyGet (calls.foldl (fun t kc => tallyOverwrite t kc.1 kc.2) []) r) d =
+        ((calls.filter fun kc => kc.1 = r).map fun kc => Coins.amountOf kc.2 d).sum := by
+  intro h
+  have := h [("r1", [("nhash", 600)]), ("r1", [("nhash", 133)])] "r1" "nhash"
+  revert this; decide
+
+/-! ### the route of one transaction: router -> meter -> map per recipient -> sends -/
+
+/-- what the meter holds for recipient `r`: the total over all composite keys `(type, r)` -/
+def meterRecip (g : FeeMeter) (r : String) (d : Denom) : Int :=
+  sumWhere (fun k => decide (k.2 = r)) g d
+
+theorem consumeFee_recip (g : FeeMeter) (c : Coins) (typ k r : String) (d : Denom) :
+    meterRecip (consumeFee g c typ k) r d = meterRecip g r d + if k = r then Coins.amountOf c d else 0 := by
+  simp [meterRecip, consumeFee, sumWhere_tallyAdd]
+
+theorem amountOf_recipCoins (l : Ledger) (r : Addr) (d : Denom) :
+    Coins.amountOf (recipCoins l r) d = Ledger.bal l r d := by
+  induction l with
+  | nil => simp [recipCoins]
+  | cons e rest ih =>
+    simp only [recipCoins] at ih
+    by_cases ha : e.addr = r <;> by_cases hd : e.denom = d <;>
+      simp [recipCoins, Ledger.bal, ha, hd, ih]
+
+theorem recipKeys_nodup (l : Ledger) : (recipKeys l).Nodup := by
+  induction l with
+  | nil => simp [recipKeys]
+  | cons e rest ih =>
+    simp only [recipKeys, List.nodup_cons]
+    exact ⟨by simp [List.mem_filter], List.Nodup.sublist List.filter_sublist ih⟩
+
+theorem bal_of_not_mem_recipKeys (l : Ledger) (r : Addr) (d : Denom) (h : r ∉ recipKeys l) :
+    Ledger.bal l r d = 0 := by
+  induction l with
+  | nil => simp
+  | cons e rest ih =>
+    simp only [recipKeys, List.mem_cons, List.mem_filter, not_or, not_and] at h
+    have h1 : e.addr ≠ r := fun e' => h.1 e'.symm
+    have h2 : r ∉ recipKeys rest := fun hm => by
+      have := h.2 hm; simp at this; exact h.1 this
+    simp [Ledger.bal, h1, ih h2]
+
+/-- the router's loop over the keys of `RecipientDistributions` -/
+theorem foldl_consume_recip (l : Ledger) (typ : String) (ks : List Addr) (hks : ks.Nodup) (g : FeeMeter)
+    (r : String) (d : Denom) :
+    meterRecip (ks.foldl (fun g k => consumeFee g (recipCoins l k) typ k) g) r d =
+      meterRecip g r d + if r ∈ ks then Ledger.bal l r d else 0 := by
+  induction ks generalizing g with
+  | nil => simp
+  | cons k rest ih =>
+    have hn : k ∉ rest ∧ rest.Nodup := by simpa using hks
+    simp only [List.foldl_cons]
+    rw [ih hn.2, consumeFee_recip, amountOf_recipCoins]
+    by_cases hk : k = r
+    · subst hk; simp [hn.1]
+    · have : ¬ r = k := fun e => hk e.symm
+      simp [hk, this]
+
+/-! the router's guard `!feeDist.TotalAdditionalFees.IsZero()`: a distribution with a zero total
+is the empty one (every `Increase` that changes anything adds a positive coin to the total). -/
+
+def DistInv (s : FeeDist) : Prop := (∀ e ∈ s.total, 0 < e.2) ∧ (s.total = [] → s.recips = [])
+
+theorem distIncrease_inv (s s' : FeeDist) (den : Denom) (amt : Int) (bips : Nat) (rcpt : String)
+    (h : distIncrease s den amt bips rcpt = .ok s') (hi : DistInv s) : DistInv s' := by
+  unfold distIncrease at h
+  by_cases ha : amt ≤ 0
+  · simp [ha] at h; subst h; exact hi
+  · have hpos : 0 < amt := by omega
+    have htot : ∀ e ∈ s.total.add [(den, amt)], 0 < e.2 := by
+      intro e he
+      simp only [Coins.add, List.mem_append, List.mem_singleton] at he
+      rcases he with he | he
+      · exact hi.1 e he
+      · subst he; exact hpos
+    have hne : s.total.add [(den, amt)] ≠ [] := by simp [Coins.add]
+    by_cases hrc : rcpt = ""
+    · simp [ha, hrc] at h; subst h
+      exact ⟨htot, fun h0 => absurd h0 hne⟩
+    · cases hsp : splitCoinByBips amt bips with
+      | error e => rw [hsp] at h; simp [ha, hrc] at h
+      | ok rm =>
+        obtain ⟨r0, m⟩ := rm
+        rw [hsp] at h; simp [ha, hrc] at h; subst h
+        exact ⟨htot, fun h0 => absurd h0 hne⟩
+
+theorem distIncreaseAll_inv (cs : List FeeDistCall) (s s' : FeeDist)
+    (h : distIncreaseAll s cs = .ok s') (hi : DistInv s) : DistInv s' := by
+  induction cs generalizing s with
+  | nil => simp [distIncreaseAll] at h; subst h; exact hi
+  | cons c rest ih =>
+    obtain ⟨den, amt, bips, rcpt⟩ := c
+    simp only [distIncreaseAll] at h
+    cases h1 : distIncrease s den amt bips rcpt with
+    | error e => rw [h1] at h; cases h
+    | ok s1 => rw [h1] at h; exact ih s1 h (distIncrease_inv s s1 den amt bips rcpt h1 hi)
+
+private theorem amountOf_nonneg (t : Coins) (h : ∀ e ∈ t, 0 < e.2) (d : Denom) : 0 ≤ Coins.amountOf t d := by
+  induction t with
+  | nil => simp
+  | cons hd rest ih =>
+    obtain ⟨d', a⟩ := hd
+    have h1 : 0 < a := h (d', a) (by simp)
+    have h2 := ih (fun e he => h e (by simp [he]))
+    simp only [Coins.amountOf_cons]
+    split <;> omega
+
+theorem isZero_of_pos (t : Coins) (h : ∀ e ∈ t, 0 < e.2) (hz : Coins.isZero t = true) : t = [] := by
+  cases t with
+  | nil => rfl
+  | cons hd rest =>
+    obtain ⟨d', a⟩ := hd
+    exfalso
+    have h1 : 0 < a := h (d', a) (by simp)
+    have h2 := amountOf_nonneg rest (fun e he => h e (by simp [he])) d'
+    simp [Coins.isZero, Coins.denoms] at hz
+    omega
+
+theorem dist_zero_total_is_empty (cs : List FeeDistCall) (dd : FeeDist)
+    (h : distIncreaseAll {} cs = .ok dd) (hz : Coins.isZero dd.total = true) : dd.recips = [] := by
+  have hi := distIncreaseAll_inv cs {} dd h ⟨by simp, fun _ => rfl⟩
+  exact hi.2 (isZero_of_pos dd.total hi.1 hz)
+
+/-- ONE message through the router: what the meter holds for a recipient grows by exactly the
+recipient's coins in that message's distribution. -/
+theorem routeConsume_recip (g : FeeMeter) (typ : String) (dd : FeeDist) (cs : List FeeDistCall)
+    (h : distIncreaseAll {} cs = .ok dd) (r : String) (hr : r ≠ "") (d : Denom) :
+    meterRecip (routeConsume g typ dd) r d = meterRecip g r d + Ledger.bal dd.recips r d := by
+  unfold routeConsume
+  by_cases hz : Coins.isZero dd.total = true
+  · simp [hz, dist_zero_total_is_empty cs dd h hz]
+  · simp only [hz]
+    rw [if_neg (by simp), foldl_consume_recip _ _ _ (recipKeys_nodup _)]
+    have hg1 : meterRecip (if dd.module.isEmpty then g else consumeFee g dd.module typ "") r d = meterRecip g r d := by
+      have : ¬ ("" = r) := fun e => hr e.symm
+      split
+      · rfl
+      · rw [consumeFee_recip]; simp [this]
+    rw [hg1]
+    by_cases hm : r ∈ recipKeys dd.recips
+    · simp [hm]
+    · simp [hm, bal_of_not_mem_recipKeys _ _ d hm]
 
 /-- the calls of all messages of the transaction, in order -/
 def allCalls (rate : Nat) (stored : List StoredFee) : List PayMsg → Except AErr (List FeeDistCall)
@@ -104,17 +418,15 @@ def allCalls (rate : Nat) (stored : List StoredFee) : List PayMsg → Except AEr
       | .error e => .error e
       | .ok r => .ok (cs ++ r)
 
-/-- [all message lists] The tallies of the fee gas meter lose nothing: what a recipient is paid
-at the end of the transaction is the sum of its floor shares over ALL `Increase` calls of ALL
-messages — also when several messages, of the same or of different types, name it. -/
-theorem payRoute_pays_every_share (rate : Nat) (stored : List StoredFee) (msgs : List PayMsg) (l : Ledger)
-    (h : payRoute rate stored msgs = .ok l) :
+/-- [all message lists] the meter after the router has seen all messages -/
+theorem payMeter_recip (rate : Nat) (stored : List StoredFee) (msgs : List PayMsg) (g g' : FeeMeter)
+    (h : payMeter rate stored g msgs = .ok g') :
     ∃ cs, allCalls rate stored msgs = .ok cs ∧
-      ∀ r, r ≠ "" → ∀ d, Ledger.bal l r d = callsShare r d cs := by
-  induction msgs generalizing l with
-  | nil => simp [payRoute] at h; subst h; exact ⟨[], rfl, by intros; simp [callsShare]⟩
+      ∀ r, r ≠ "" → ∀ d, meterRecip g' r d = meterRecip g r d + callsShare r d cs := by
+  induction msgs generalizing g with
+  | nil => simp [payMeter] at h; subst h; exact ⟨[], rfl, by intros; simp [callsShare]⟩
   | cons m rest ih =>
-    simp only [payRoute] at h
+    simp only [payMeter] at h
     cases h1 : msgCalls rate stored m with
     | error e => rw [h1] at h; cases h
     | ok cs =>
@@ -123,19 +435,75 @@ theorem payRoute_pays_every_share (rate : Nat) (stored : List StoredFee) (msgs :
       | error e => rw [h2] at h; cases h
       | ok dd =>
         rw [h2] at h; simp only at h
-        cases h3 : payRoute rate stored rest with
-        | error e => rw [h3] at h; cases h
-        | ok l' =>
-          rw [h3] at h; simp only at h
-          injection h with h; subst h
-          obtain ⟨cs', hc, hall⟩ := ih l' h3
-          refine ⟨cs ++ cs', by simp [allCalls, h1, hc], ?_⟩
-          intro r hr d
-          have a := increaseAll_share cs {} dd r hr h2 d
-          have b := hall r hr d
-          rw [callsShare_append]
-          simp at a ⊢
-          omega
+        obtain ⟨cs', hc, hall⟩ := ih _ h
+        refine ⟨cs ++ cs', by simp [allCalls, h1, hc], ?_⟩
+        intro r hr d
+        have a := increaseAll_share cs {} dd r hr h2 d
+        have b := hall r hr d
+        have c := routeConsume_recip g m.typ dd cs h2 r hr d
+        rw [callsShare_append]
+        simp at a
+        omega
+
+/-- `FeeConsumedDistributions`: the entry of `r` in the map per recipient is what the meter holds
+for `r` over all msg types — through `tally_total_eq_sum`. -/
+theorem feeConsumedDistributions_get (g : FeeMeter) (r : String) (d : Denom) :
+    Coins.amountOf (tallyGet (feeConsumedDistributions g) r) d = meterRecip g r d := by
+  unfold feeConsumedDistributions meterRecip
+  rw [tally_total_eq_sum]
+  exact sumWhere_map (fun k => decide (k = r)) (fun (k : String × String) => k.2) g d
+
+theorem bal_deduct_of_not_mem (t : Tally String) (r : String) (d : Denom) (h : r ∉ tallyKeys t) :
+    Ledger.bal (deductDistributions t) r d = 0 := by
+  induction t with
+  | nil => simp [deductDistributions]
+  | cons hd rest ih =>
+    obtain ⟨k, c⟩ := hd
+    simp only [tallyKeys, List.map_cons, List.mem_cons, not_or] at h
+    have h1 : ¬ (k = r) := fun e => h.1 e.symm
+    have := ih (by simpa [tallyKeys] using h.2)
+    simp only [deductDistributions] at this
+    simp [deductDistributions, h1, this]
+
+/-- `DeductFeesDistributions` sends every key of the map its entry, once. -/
+theorem bal_deduct (t : Tally String) (hn : (tallyKeys t).Nodup) (r : String) (d : Denom) :
+    Ledger.bal (deductDistributions t) r d = Coins.amountOf (tallyGet t r) d := by
+  induction t with
+  | nil => simp [deductDistributions, tallyGet]
+  | cons hd rest ih =>
+    obtain ⟨k, c⟩ := hd
+    have hn' : k ∉ tallyKeys rest ∧ (tallyKeys rest).Nodup := by simpa [tallyKeys] using hn
+    have ih' := ih hn'.2
+    simp only [deductDistributions] at ih'
+    by_cases hk : k = r
+    · subst hk
+      have := bal_deduct_of_not_mem rest k d hn'.1
+      simp only [deductDistributions] at this
+      simp [deductDistributions, tallyGet, this]
+    · simp [deductDistributions, tallyGet, hk, ih']
+
+/-- [all message lists] The keyed tallies of the fee gas meter lose nothing: what a recipient is
+sent at the end of the transaction is the sum of its floor shares over ALL `Increase` calls of ALL
+messages — also when several messages, of the same or of different types, name it. (Through
+`sumWhere_tallyAdd` for the map keyed by (msg type, recipient), `tally_total_eq_sum` for the map per
+recipient and `bal_deduct` for the sends.) -/
+theorem payRoute_pays_every_share (rate : Nat) (stored : List StoredFee) (msgs : List PayMsg) (l : Ledger)
+    (h : payRoute rate stored msgs = .ok l) :
+    ∃ cs, allCalls rate stored msgs = .ok cs ∧
+      ∀ r, r ≠ "" → ∀ d, Ledger.bal l r d = callsShare r d cs := by
+  unfold payRoute at h
+  cases hm : payMeter rate stored [] msgs with
+  | error e => rw [hm] at h; cases h
+  | ok g =>
+    rw [hm] at h; simp only at h
+    injection h with h; subst h
+    obtain ⟨cs, hc, hall⟩ := payMeter_recip rate stored msgs [] g hm
+    refine ⟨cs, hc, ?_⟩
+    intro r hr d
+    have hn : (tallyKeys (feeConsumedDistributions g)).Nodup :=
+      tallyAddAll_keys_nodup _ [] (by simp [tallyKeys])
+    rw [bal_deduct _ hn, feeConsumedDistributions_get, hall r hr d]
+    simp [meterRecip, sumWhere]
 
 /-- the same payout as ONE distribution over all the calls would give (the per-message
 distributions and the per-(type, recipient) tallies are only a regrouping) -/
